@@ -13,6 +13,7 @@ import (
 	"goa.design/goa/v3/expr"
 	grpccodegen "goa.design/goa/v3/grpc/codegen"
 	httpcodegen "goa.design/goa/v3/http/codegen"
+	"goa.design/goa/v3/http/codegen/openapi"
 )
 
 // ResetGoa puts goa's package-level state back to a fresh process: evaluation
@@ -30,6 +31,8 @@ func ResetGoa() {
 	service.Services = make(service.ServicesData)
 	httpcodegen.HTTPServices = make(httpcodegen.ServicesData)
 	grpccodegen.GRPCServices = make(grpccodegen.ServicesData)
+	// the OpenAPI v2 builder accumulates definitions in a package-level map it never clears
+	openapi.Definitions = make(map[string]*openapi.Schema)
 }
 
 // Outcome of evaluating a design through the DSL.
@@ -364,7 +367,16 @@ func (in *interp) validation(v *Validation) {
 		return
 	}
 	if len(v.Enum) > 0 {
-		dsl.Enum(v.Enum...)
+		// designs that went through JSON (Clone, replay files) hold integers as float64
+		vals := make([]any, len(v.Enum))
+		for i, x := range v.Enum {
+			if f, ok := x.(float64); ok && f == float64(int(f)) {
+				vals[i] = int(f)
+			} else {
+				vals[i] = x
+			}
+		}
+		dsl.Enum(vals...)
 	}
 	if v.Format != "" {
 		dsl.Format(expr.ValidationFormat(v.Format))
